@@ -117,6 +117,15 @@ Consts(d) ==
             [kind |-> "wrapper", set |-> FALSE, stdOptionalFields |-> 0, fieldCount |-> 1, extendedAfterField |-> 0 - 1,
              variantCount |-> 0, stdVariantCount |-> 0, ext |-> FALSE, pos |-> PosConsts("0", 0, t), defaults |-> <<>>]
 
+\* the definitions the generator extracts from inline structured members: name = parent + capitalised member name
+Structured(t) == t.k \in {"seq", "choice", "enum"}
+Cap(n) == CASE n = "f1" -> "F1" [] n = "f2" -> "F2" [] n = "f3" -> "F3" [] n = "a1" -> "A1" [] n = "a2" -> "A2" [] n = "a3" -> "A3" [] OTHER -> n
+Inner(t) == IF t.k = "seqof" THEN t.of ELSE t
+SubsOf(d) ==
+  LET ms == IF d.t.k = "seq" THEN d.t.comps ELSE IF d.t.k = "choice" THEN d.t.alts ELSE <<>>
+      idx == SelectSeq([i \in 1..Len(ms) |-> i], LAMBDA i : Structured(Inner(ms[i].t)))
+  IN [j \in 1..Len(idx) |-> [name |-> d.name \o Cap(ms[idx[j]].name), consts |-> Consts(GDef(d.name \o Cap(ms[idx[j]].name), <<>>, Inner(ms[idx[j]].t)))]]
+
 \* ---- the bounded universe ------------------------------------------------
 \* incl. explicit tags that coincide with the universal tag of the tagged type ([UNIVERSAL 2] INTEGER, [UNIVERSAL 1] BOOLEAN)
 Tags == << <<>>, <<2, 0>>, <<2, 7>>, <<1, 3>>, <<3, 2>>, <<0, 30>>, <<0, 2>>, <<0, 1>> >>
@@ -150,12 +159,19 @@ Octs == [i \in 1..Len(Sizes) |-> GOct(Sizes[i])]
 Bitss == [i \in 1..Len(Sizes) |-> GBits(Sizes[i], <<>>)] \o << GBits(Sizes[2], << <<"x", 0>>, <<"y", 2>> >>), GBits(GNoSz, << <<"x", 1>> >>) >>
 Leaves == Ints \o Enums \o Strs \o Octs \o Bitss \o <<GBool, GNull>>
 
+InSeq == GSeq(FALSE, <<GComp("x", <<>>, Ints[2], "man", <<>>), GComp("y", <<>>, GBool, "opt", <<>>)>>, 0 - 1)
+InSeqX == GSeq(FALSE, <<GComp("x", <<>>, Ints[4], "man", <<>>)>>, 0)                    \* SEQUENCE { x INTEGER (0..7,...), ... }
+InChoice == GChoice(<<GAlt("p", <<>>, GBool), GAlt("q", <<>>, GStr("ia5", Sizes[3]))>>, 0 - 1)
+InEnum == GEnum(<< <<"r1", FALSE, 0>>, <<"r2", FALSE, 0>> >>, 0 - 1)
 \* a small pool for components / elements, each with a literal usable as DEFAULT (or <<>>)
 Small == << [t |-> Ints[2], lit |-> <<LitInt(5)>>], [t |-> GBool, lit |-> <<LitBool(TRUE)>>],
             [t |-> GStr("utf8", GNoSz), lit |-> <<LitStr(<<97, 98>>)>>], [t |-> GOct(Sizes[3]), lit |-> <<>>],
             [t |-> Ints[5], lit |-> <<LitInt(0 - 3)>>], [t |-> GNull, lit |-> <<>>],
             [t |-> GRef("D1"), lit |-> <<>>], [t |-> GRef("E1"), lit |-> <<LitEnum("E1", "v2")>>],
-            [t |-> GStr("ia5", Sizes[3]), lit |-> <<LitStr(<<120>>)>>], [t |-> Ints[10], lit |-> <<LitInt(0 - 3)>>] >>
+            [t |-> GStr("ia5", Sizes[3]), lit |-> <<LitStr(<<120>>)>>], [t |-> Ints[10], lit |-> <<LitInt(0 - 3)>>],
+            \* inline structured types: the generator extracts them into definitions of their own (Parent + Field)
+            [t |-> InSeq, lit |-> <<>>], [t |-> InSeqX, lit |-> <<>>], [t |-> InChoice, lit |-> <<>>], [t |-> InEnum, lit |-> <<>>],
+            [t |-> GSeqOf(FALSE, InSeq, GNoSz), lit |-> <<>>] >>
 Modes == <<"man", "opt", "def">>
 
 \* component number q (1..Len(Small) * Len(Tags) * 3) named nm; DEFAULT falls back to OPTIONAL where there is no literal
@@ -181,7 +197,9 @@ Name(prefix, i) == prefix \o ToString(i)
 FLeaf == Leaves
 FList == [q \in 1..(2 * Len(Small) * 3) |->
             GSeqOf(q % 2 = 0, Small[(((q - 1) \div 2) % Len(Small)) + 1].t, <<Sizes[1], Sizes[2], Sizes[4]>>[((q - 1) \div (2 * Len(Small))) + 1])]
-         \o << GSeqOf(FALSE, GSeqOf(FALSE, Ints[2], Sizes[3]), GNoSz), GSeqOf(TRUE, GSeqOf(FALSE, GBool, GNoSz), Sizes[4]) >>
+         \o << GSeqOf(FALSE, GSeqOf(FALSE, Ints[2], Sizes[3]), GNoSz), GSeqOf(TRUE, GSeqOf(FALSE, GBool, GNoSz), Sizes[4]),
+               \* a list whose element is an inline structured type
+               GSeqOf(FALSE, InSeq, GNoSz), GSeqOf(TRUE, InChoice, Sizes[3]), GSeqOf(FALSE, InEnum, GNoSz) >>
 \* one component, both kinds, marker none / after it
 FSeq1 == [q \in 1..(NComp * 4) |->
             GSeq((q - 1) % 2 = 1, <<CompOf(((q - 1) \div 4) + 1, "f1")>>, IF ((q - 1) \div 2) % 2 = 0 THEN 0 - 1 ELSE 0)]
